@@ -56,9 +56,20 @@ def run(ctx):
 
     # ---- R2 every report stored once ----------------------------------------------------------------------
     ins = [e for e in Q.calls(eng, "VacantEntry") if "insert" in e["callee"]]
-    psh = [e for e in Q.calls(eng, "::push") if "collect_messages" in e.get("home_fn", e["fn"])]
-    eor = [e for e in Q.calls(eng, "Entry::") if e.get("model") == "m_entry_or" and "collect_messages" in e.get("home_fn", e["fn"])]
-    nxt = [e for e in Q.calls(eng, "Iterator") if "collect_messages" in e.get("home_fn", e["fn"]) and (e.get("dname") or "").endswith("Iterator::next")]
+    # the grouping code is located through the entry call (not through the name of the function around it): pushes and
+    # entry adaptors of the function the entry call sits in, or of private helpers it was moved into, and the loop that
+    # drives it (the nearest enclosing frame that iterates)
+    def grouping(e):
+        hf = e.get("home_fn", e["fn"])
+        return bool(ent) and (hf == ent[0].get("home_fn", ent[0]["fn"]) or "collect_messages" in hf or
+                              e["frame"].startswith(ent[0]["frame"]) or ent[0]["frame"].startswith(e["frame"]))
+    psh = [e for e in Q.calls(eng, "::push") if grouping(e) and e["args"] and e["args"][0].op == "ref" and
+           any(isinstance(p_, tuple) and p_ and p_[0] == "mapval" for p_ in e["args"][0].args[1])]
+    eor = [e for e in Q.calls(eng, "Entry::") if e.get("model") == "m_entry_or" and grouping(e)]
+    nxt = [e for e in Q.calls(eng, "Iterator") if (e.get("dname") or "").endswith("Iterator::next") and bool(ent) and
+           ent[0]["frame"].startswith(e["frame"])]
+    if len(nxt) > 1:
+        nxt = sorted(nxt, key=lambda e: -len(e["frame"]))[:1]          # the innermost loop around the entry call
     whole = len(nxt) == 1 and Q.variant(nxt[0]["result"], 1) is not None and Q.path_of(Q.variant(nxt[0]["result"], 1)[2][0]) == "all_messages.*" and \
         not Q.contains(nxt[0]["argv"][0], lambda t: t.op in ("adapted", "filtered"))
     ok2 = False
